@@ -172,12 +172,12 @@ func genC18Type(r *RNG, wrapped bool) TypeSpec {
 }
 
 type c18mut struct {
-	Side  int    `json:"side"` // 0 source, 1 copy
-	Kind  string `json:"kind"`
-	Field string `json:"field,omitempty"`
-	Val   *Val   `json:"val,omitempty"`
+	Side  int      `json:"side"` // 0 source, 1 copy
+	Kind  string   `json:"kind"`
+	Field string   `json:"field,omitempty"`
+	Val   *Val     `json:"val,omitempty"`
 	Many  []string `json:"many,omitempty"`
-	One   string `json:"one,omitempty"`
+	One   string   `json:"one,omitempty"`
 }
 
 func (m c18) Case(c *Ctx, r *RNG) {
@@ -236,10 +236,51 @@ func (m c18) Case(c *Ctx, r *RNG) {
 	m.run(c, &t, rs, muts)
 }
 
+// softOnBuiltType: a SoftResource working on a type that came from BuildType (such a type carries its own
+// constructor). Fields added to the soft resource are fields of what its New() and Copy() return.
+func (m c18) softOnBuiltType(c *Ctx, t *TypeSpec, rs *ResSpec) {
+	var fresh, cp jsonapi.Resource
+	if pi := Guard(func() {
+		typ := buildType(t)
+		sr := &jsonapi.SoftResource{Type: &typ}
+		sr.SetID(rs.ID)
+		sr.AddAttr(jsonapi.Attr{Name: "zz-added", Type: jsonapi.AttrTypeInt, Nullable: false})
+		sr.Set("zz-added", 7)
+		fresh, cp = sr.New(), sr.Copy()
+	}); pi != nil {
+		c.Violate("panic@"+pi.Frame+"/"+panicClass(pi.Val)+"/soft-on-built-type", "type %s: %s", jsonStr(t), pi)
+		return
+	}
+	c.Count("soft_on_built_type")
+	ext := *t
+	ext.Wrapped = false
+	ext.Attrs = append(append([]AttrSpec{}, t.Attrs...), AttrSpec{Name: "zz-added", Kind: KInt})
+	for name, res := range map[string]jsonapi.Resource{"New": fresh, "Copy": cp} {
+		var st string
+		if pi := Guard(func() { st = checkStructure(&ext, res) }); pi != nil {
+			c.Violate("panic@"+pi.Frame+"/"+panicClass(pi.Val)+"/soft-on-built-type/read", "type %s: %s", jsonStr(t), pi)
+			return
+		}
+		if st != "" {
+			c.Violate("soft-on-built-type/"+name+"-structure", "%s() of a SoftResource on a BuildType type + one added attribute: %s; type %s", name, st, jsonStr(t))
+			return
+		}
+	}
+	if v := cp.Get("zz-added"); v != 7 {
+		c.Violate("soft-on-built-type/copy-value", "copy reads %v for the added attribute, source 7", v)
+	}
+	if v := fresh.Get("zz-added"); v != 0 {
+		c.Violate("soft-on-built-type/new-not-zero", "New() reads %v for the added attribute", v)
+	}
+}
+
 func (m c18) run(c *Ctx, t *TypeSpec, rs *ResSpec, muts []c18mut) {
 	c.Count("evaluations")
 	impl := implName(t)
 	c.Count("impl/" + impl)
+	if t.Wrapped {
+		m.softOnBuiltType(c, t, rs)
+	}
 	desc := func(i int) string {
 		return fmt.Sprintf("(%s) type %s resource %s mutations %s", impl, jsonStr(t), jsonStr(rs), jsonStr(muts[:i]))
 	}
